@@ -17,7 +17,7 @@ FAILING = {
         ("add", "S\tA\t8\t*"), ("add", "E\te1\tA+\tB+\t0\t2\t6\t8$\t*"), ("add", "G\tA\tA+\tB-\t1\t*"), ("add", "U\tA\tB C"), ("add", "O\tB\tA+ C+"),
         ("add", "E\tez\tA+\tB+\t9\t8$\t0\t2\t*"), ("add", "E\tez\tQ+\tB+\t9\t8$\t0\t2\t*"), ("add", "E\tez\tA+\tB+\t2$\t8\t0\t2\t*"), ("add", "F\tA\tx+\t5\t2\t0\t8\t*"),
         ("add", "H\tVN:Z:3.0"), ("add", "H\tVN:Z:1.0"), ("add", "H\tnn:i:1\tTS:i:x"), ("add", "L\tA\t+\tB\t+\t2M"), ("add", "S\tY\t*"), ("add", "E\tez\tA+\tB+\t0\t2"),
-        ("add", "U\tus\tC\txx:i:2"), ("add", "U\tus\tQ R\txx:i:2"), ("add", "O\tos\tA+ B+\tzz:i:1\tzz:i:2"), ("add", "G\tgz\tA+\tB-\tx\t*"), ("add", "U\tuz\ta  b"),
+        ("add", "U\tus\tC\txx:i:2"), ("add", "U\tuz\tC Q\tcv:i:3"), ("add", "U\tuz\tC\tcv:i:3\tdd:Z:x"), ("add", "U\tus\tQ R\txx:i:2"), ("add", "O\tos\tA+ B+\tzz:i:1\tzz:i:2"), ("add", "G\tgz\tA+\tB-\tx\t*"), ("add", "U\tuz\ta  b"),
         ("add", "O\tu1\tA+"), ("add", "U\to1\tA"), ("add", "E\tg1\tA+\tB+\t6\t8$\t0\t2\t*"),
         ("rename", "A", "B"), ("rename", "e1", "A"), ("rename", "u1", "A"), ("rm", "nope"), ("settag", "A", "xx", [1, "a"]), ("setfield", "A", "slen", "x"),
         ("setfield", "e1", "sid1", "B+"), ("setfield", "A", "sid", "a b"),
